@@ -526,7 +526,12 @@ impl Connection {
                     remaining.len()
                 );
                 let message = if !remaining.is_empty() {
-                    let (msg, _) = decoder::decode_with_trailing(remaining)?;
+                    let (msg, rest) = decoder::decode_with_trailing(remaining)?;
+                    if !rest.is_empty() {
+                        return Err(Error::Decode(erltf::errors::DecodeError::TrailingData(
+                            rest.len(),
+                        )));
+                    }
                     trace!("Decoded message term from pass-through message");
                     Some(msg)
                 } else {
@@ -735,7 +740,12 @@ impl Connection {
 
             let payload = if !remaining.is_empty() {
                 trace!("Decoding payload from {} bytes", remaining.len());
-                let (payload_term, _) = decoder::decode_with_trailing(remaining)?;
+                let (payload_term, rest) = decoder::decode_with_trailing(remaining)?;
+                if !rest.is_empty() {
+                    return Err(Error::Decode(erltf::errors::DecodeError::TrailingData(
+                        rest.len(),
+                    )));
+                }
                 trace!("Decoded payload: {:?}", payload_term);
                 Some(payload_term)
             } else {
